@@ -297,6 +297,7 @@ pub fn fraccion_renovable_acs_nrb(ep: &EnergyPerformance) -> Result<f32, EpbdErr
         .filter(|c| {
             c.is_used()
                 && c.has_carrier(EAMBIENTE)
+                && c.has_service(Service::ACS)
                 && c.comment().contains("CTEEPBD_EXCLUYE_SCOP_ACS")
         })
         .map(HasValues::values_sum)
